@@ -749,6 +749,12 @@ def generate_ofm_scaling_for_pooling(emit: CommandStreamEmitter, pool_op: NpuPoo
             scale = 1
             shift = 0
 
+    if not 0 <= scale < (1 << 32):
+        # cmd1_with_offset keeps the low 32 bits only; a wider scale would silently become a different multiplier
+        raise VelaError(
+            f"OFM scale {scale} (shift {shift}) of pooling operation {pool_op.name} does not fit the 32-bit"
+            f" NPU_SET_OFM_SCALE register"
+        )
     emit.cmd1_with_offset(cmd1.NPU_SET_OFM_SCALE, scale, shift)
 
 
